@@ -187,13 +187,33 @@ def _arg(cn, a, snap):
     return cn.t(norm(a))
 
 
+def canon_cond(cn, c, truth):
+    """normal form of a branch condition: comparisons become `a < b` / `a <= b` / `a == b` / `a != b` with the polarity folded in,
+    so that `if x > n {A} else {B}` and `if x <= n {B} else {A}` print the same"""
+    if isinstance(truth, bool):
+        while c[0] == "un" and c[1] == "Not":
+            c, truth = c[2], (not truth)
+        if c[0] == "bin" and c[1] in ("Lt", "Le", "Gt", "Ge", "Eq", "Ne"):
+            op, a, b = c[1], c[2], c[3]
+            if not truth:
+                op = {"Lt": "Ge", "Le": "Gt", "Gt": "Le", "Ge": "Lt", "Eq": "Ne", "Ne": "Eq"}[op]
+            if op in ("Gt", "Ge"):
+                op, a, b = {"Gt": "Lt", "Ge": "Le"}[op], b, a
+            sa, sb = cn.t(a), cn.t(b)
+            if op in ("Eq", "Ne") and sb < sa:
+                sa, sb = sb, sa
+            return "%s %s %s" % (sa, {"Lt": "<", "Le": "<=", "Eq": "==", "Ne": "!="}[op], sb)
+    return "%s == %s" % (cn.t(c), truth)
+
+
 def path_summary(F, fn, p, hide_calls=()):
     cn = Canon(F, p, fn)
     conds = []
     for c, truth, kind in p.pc:
         if kind == "assert":
             continue
-        conds.append("%s == %s" % (cn.t(norm(c)), truth))
+        conds.append(canon_cond(cn, norm(c), truth))
+    conds = sorted(set(conds))
     evs = []
     for e in p.events:
         if e["k"] == "call" and not e.get("modelled") and not e.get("inlined"):
